@@ -238,6 +238,46 @@ func decide(o *Obligation) {
 		return
 	}
 	if o.ExpectSat {
+		// call-site covers come in pairs (before / after the callee's posts): the obligation fails
+		// only if the site is reachable before and on no path after
+		paired := false
+		for _, q := range o.Queries {
+			if q.Before {
+				paired = true
+			}
+		}
+		if paired {
+			reachable := false
+			for _, q := range o.Queries {
+				if !q.Before && q.Verdict == "sat" {
+					o.Discharged = true
+					return
+				}
+				if q.Before && q.Verdict == "sat" {
+					reachable = true
+				}
+			}
+			if !reachable {
+				o.Discharged = true
+				o.Detail = "call site not reachable in this context"
+				return
+			}
+			for _, q := range o.Queries {
+				if !q.Before && q.Verdict != "unsat" {
+					o.Discharged = true
+					o.Detail = "cover undecided (" + q.Verdict + ")"
+					return
+				}
+			}
+			o.Discharged = false
+			for _, q := range o.Queries {
+				if !q.Before {
+					o.Failed = q
+					break
+				}
+			}
+			return
+		}
 		// at least one reachable witness; "unknown" counts as not refuted only if no sat was found
 		for _, q := range o.Queries {
 			if q.Verdict == "sat" {
